@@ -90,6 +90,9 @@ def run(cx):
     # the resend queue is examined head-first and the scan stops at the first entry that is not yet due
     from props.shared import heap_order
     heap_order(cx, "C12.i", ["resend"])
+    # "retransmitted until acknowledged": a resend comes due a bounded time after each transmission (capped back-off)
+    from props.shared import resend_schedule
+    resend_schedule(cx, "C12.q")
     from props.shared import resend_ref_in_own_frame
     resend_ref_in_own_frame(cx, "C12.j")
     # "not transmitted again once the receiver has reported moving past the packet" compares window bases, which
@@ -255,4 +258,7 @@ SELFTEST = [
     {"name": "Unreliable marked for resend",
      "edits": [{"file": "src/half_connection/packet_sender.rs", "old": "                SendMode::Unreliable => false,", "new": "                SendMode::Unreliable => true,"}],
      "expect": ["C12.a"]},
+    {"name": "resend back-off exponent no longer capped",
+     "edits": [{"file": "src/half_connection/mod.rs", "old": "let new_send_count = (entry.send_count + 1).min(MAX_SEND_COUNT);", "new": "let new_send_count = entry.send_count + 1;"}],
+     "expect": ["C12.q"]},
 ]
